@@ -15,4 +15,5 @@ if [ ! -f build/ocaml/model.ml ] || [ -n "$(find coq/theories coq/extract -name 
     ocamlfind ocamlopt -O2 -w -a -package str model.mli model.ml main.ml -o ../bin/modelrun 2>/dev/null \
       || ocamlfind ocamlopt -w -a model.mli model.ml main.ml -o ../bin/modelrun )
 fi
+if [ ! -x build/bin/maprange ] || [ harness/maprange/main.go -nt build/bin/maprange ]; then ( cd harness/maprange && GOFLAGS=-mod=mod GOPROXY=off GOTOOLCHAIN=auto go build -o ../../build/bin/maprange . ) || { echo "MAPRANGE BUILD FAILED"; exit 1; }; fi
 echo "build ok"
